@@ -111,7 +111,17 @@ def private_members(tree):
                         and t.id not in out[""]["globals"]:
                     out[""]["globals"].append(t.id)
         elif isinstance(st, ast.ClassDef):
-            d = {"methods": [], "fields": [], "arity": {}}
+            d = {"methods": [], "fields": [], "arity": {}, "callers": {}}
+            for b in st.body:
+                if isinstance(b, (ast.FunctionDef, ast.AsyncFunctionDef)):
+                    for n in ast.walk(b):
+                        if isinstance(n, ast.Call) and isinstance(
+                                n.func, ast.Attribute) and _is_private(
+                                    n.func.attr) and isinstance(
+                                    n.func.value, ast.Name):
+                            d["callers"].setdefault(n.func.attr, [])
+                            if b.name not in d["callers"][n.func.attr]:
+                                d["callers"][n.func.attr].append(b.name)
             for b in st.body:
                 if isinstance(b, (ast.FunctionDef, ast.AsyncFunctionDef)):
                     if _is_private(b.name):
@@ -230,7 +240,7 @@ class Model:
                 if want is None:
                     continue
                 for kind, names in kinds.items():
-                    if kind == "arity":
+                    if kind in ("arity", "callers"):
                         continue
                     old = want.get(kind, [])
                     if old == names:
@@ -244,9 +254,13 @@ class Model:
                         fresh = [n for n in names if n not in old
                                  and n not in vocab and n not in known]
                         la, oa = kinds.get("arity", {}), want.get("arity", {})
+                        lc, oc = kinds.get("callers", {}), want.get(
+                            "callers", {})
                         for o in gone:
                             cands = [n for n in fresh
-                                     if la.get(n) == oa.get(o)]
+                                     if la.get(n) == oa.get(o)
+                                     and (not cname or sorted(lc.get(n, []))
+                                          == sorted(oc.get(o, [])))]
                             others = [g for g in gone if g != o
                                       and oa.get(g) == oa.get(o)]
                             if len(cands) == 1 and not others:
@@ -261,6 +275,17 @@ class Model:
                     pairs = [(o, n) for o, n in zip(old, names) if o != n]
                     if any(o in names or n in old for o, n in pairs):
                         continue
+                    if kind in ("methods", "functions"):
+                        # a renamed function keeps its arity and (for
+                        # methods) the methods that call it
+                        la, oa = kinds.get("arity", {}), want.get("arity", {})
+                        lc, oc = kinds.get("callers", {}), want.get(
+                            "callers", {})
+                        if any(la.get(n) != oa.get(o) or (
+                                cname and sorted(lc.get(n, []))
+                                != sorted(oc.get(o, [])))
+                               for o, n in pairs):
+                            continue
                     for o, n in pairs:
                         if n in vocab or n in known:
                             # the new name means something elsewhere too:
